@@ -14,11 +14,11 @@ attached (its parent pointer is None and the code at the pinned commit itself fa
 import random
 import zlib
 
-PLAIN, HISTORY, DETOUR = 0, 1, 2
+PLAIN, HISTORY, DETOUR, FILL = 0, 1, 2, 3
 
 
 def mode_of(m):
-    """deterministic choice of the way a spec is built: half plain, a quarter each history and detour.
+    """deterministic choice of the way a spec is built: half plain, a sixth each history, detour and fill.
     (iterative walk, bounded: deep chains are specs too)"""
     acc, stack, seen = [], [m["root"]], 0
     while stack and seen < 300:
@@ -37,7 +37,7 @@ def mode_of(m):
                 acc.append(n[0])
                 stack.extend((n[1], n[2]))
     h = zlib.crc32(repr(acc).encode("utf8", "surrogatepass"))
-    return (PLAIN, HISTORY, PLAIN, DETOUR)[h % 4], h
+    return (PLAIN, HISTORY, PLAIN, DETOUR, FILL, PLAIN)[h % 6], h
 
 
 def _quiet(fn, *a):
